@@ -21,7 +21,9 @@
       S7   the handshake models: Lookup (C03) / Handshake (C02) / SingleFlight (C13) / Renewal (C04)
       S8   job manager (C19) ==> Maintain's jobs (C05); CleanStorage (C18) under Issuance's lock (C09); account registration (C20 / C09)
       S9   Maintain (C05) and Issuance (C01): renewal job / manage agree; atomicity of the locked region
-      S10  OCSP staples: C14 x C18 (x C06); challenge material: C15 x C16 *)
+      S10  OCSP staples: C14 x C18 (x C06); challenge material: C15 x C16
+      S11  OCSP revocation (C14) ==> the Revoke / OcspPass events of Maintain (C05), Handshake (C02), Bundle
+      S12  Maintain (C05) and Issuance (C01): obtain job, synchronous and asynchronous manage agree *)
 From Coq Require NArith ZArith PArith String Ascii.
 
 (* ================================================================================================ *)
@@ -3205,3 +3207,747 @@ Print Assumptions B_all.
 End B.
 
 End S10.
+
+(* ================================================================================================ *)
+(* scopes opened by the previous part do not reach this one *)
+Close Scope N_scope. Close Scope Z_scope. Close Scope positive_scope. Close Scope string_scope. Close Scope char_scope.
+
+(** ===== S11: the OCSP model (C14, Ocsp.Model) as the source of the revocation statuses that the
+    other models ASSUME =====
+    C05's revocation extension (Maintain.XModel: events [Revoke i] / [OcspPass ord]), the handshake
+    model's [c_revoked] flag (C02, Handshake.Model) and the bundle model's [m_rev] / [k_ocsp]
+    (C06/C07, Bundle.Model).   Files: System/OcspMaintain.v, OcspMaintain2.v, OcspMaintain3.v
+    Wrapped in a module: Ocsp.Model and Maintain.Model both define [cert], [cache], [step], [store],
+    [force_renew]. *)
+From Coq Require Import List ZArith Bool.
+From CM Require Ocsp.Model Ocsp.Proofs Maintain.Model Maintain.XModel Maintain.XProofs Maintain.Proofs
+  Handshake.Model Bundle.Model System.OcspMaintain System.OcspMaintain2 System.OcspMaintain3.
+Import ListNotations.
+
+Module S11.
+Import CM.Ocsp.Model CM.Ocsp.Proofs CM.System.OcspMaintain CM.System.OcspMaintain2 CM.System.OcspMaintain3.
+Local Open Scope Z_scope.
+
+(** Vocabulary.  C14 side (Ocsp.Model): [sys] = cache (list of [entry] = certificate, managed flag,
+    OCSPStaple/ocsp state) + persisted staples; [OMaintain tick dis now envs rns] = one run of
+    Cache.updateOCSPStaples at time [now] ([envs id] = what the responder / storage do for
+    certificate [id]; [rns id] = outcome of forceRenew for it, an oracle).
+    [judged dis c now e stv] = the one response stapleOCSP looks at for certificate [c] (the persisted
+    one if verifiable, fresh and valid, else the responder's, always signature-checked);
+    [RevokedFor c now r] = status Revoked /\ r_sig /\ same serial /\ thisUpdate <= now /\ (no nextUpdate
+    \/ now < nextUpdate) /\ responder certificate ok /\ nextUpdate <= the certificate's expiry.
+    [recorded en] = the cached status of [en] is Revoked;  [still_fresh now en] = the tick's "no need
+    to update" test;  [tick_revokes dis now e en stv] = THE DECISION of C14's [tick_one] "this
+    certificate goes through forceRenew in this pass" ([decided dis now envs s en] = the same for entry
+    [en] of [s]); [tick_one_decision] / [tick_pass_membership] (System/OcspMaintain.v) prove that the
+    model's pass takes a certificate out of the cache exactly when the decision says so.
+    C05 side (MM = Maintain.Model, XM = Maintain.XModel, XP = Maintain.XProofs): [XM.xstate] = core
+    state + [rev].  Abstraction [Abs s x]: the two caches correspond entry by entry ([match_cert en c]:
+    cid c = Z.to_nat (c_id), cman c = en_managed, chead c = Z.to_nat (c_name)), identities are
+    non-negative, and [XM.rev x] = the identities with [recorded en].
+    [tick_history dis now envs s ord] = [Revoke i | i <- identities with decided = true] ++ [OcspPass ord]:
+    the extended history of XModel that one C14 tick stands for. *)
+
+(** C14 alone, the decision in plain terms: the tick puts a cached certificate through forceRenew
+    iff it is unexpired and managed and either its recorded status is Revoked, or its status is due
+    for a refresh and the response stapleOCSP judges revokes THIS certificate NOW. *)
+Theorem S_ocsp_tick_decision_iff : forall dis now e en stv,
+  tick_revokes dis now e en stv = true <->
+  now <= c_expiry (en_cert en) /\ en_managed en = true /\
+  (recorded en = true \/
+   (still_fresh now en = false /\
+    exists r, judged dis (en_cert en) now e stv = Some r /\ RevokedFor (en_cert en) now r)).
+Proof. exact tick_revokes_iff. Qed.
+
+(** C14 -> C05/XModel, "[Revoke i] = what updateOCSPStaples finds when a responder says so",
+    discharged: after the [Revoke] events generated from C14's decisions the core state is untouched
+    and XModel's force-renew condition (managed and flagged = certShouldBeForceRenewed) holds of a
+    cached certificate exactly when C14's tick decides to force-renew it.  Side condition: the entry
+    is not (expired, managed, already recorded Revoked): XModel has no expiry. *)
+Theorem S_ocsp_revoke_events_are_c14_decisions : forall od idue s x dis now envs en c,
+  Abs s x -> NoDup (ids (cache s)) -> In en (cache s) -> In c (MM.cache (XM.core x)) -> match_cert en c ->
+  (c_expiry (en_cert en) < now -> en_managed en = true -> recorded en = false) ->
+  let x1 := revokes od idue x (marks dis now envs s) in
+  MM.cache (XM.core x1) = MM.cache (XM.core x) /\
+  MM.cman c && XM.flagged (XM.rev x1) c = decided dis now envs s en.
+Proof. exact revoke_events_are_c14_decisions. Qed.
+Print Assumptions S_ocsp_revoke_events_are_c14_decisions.
+
+(** C14 + C05, end to end (= C14's decision + C05_revoked_replaced_or_removed +
+    C05_ocsp_pass_keeps_unrevoked).  One tick of C14 over the cache and the extended history it
+    stands for in XModel: decision "no" => the certificate is cached afterwards in BOTH models;
+    decision "yes" and its name's issuance lock free => it is cached in NEITHER, its status is gone;
+    C14: a replacement the forced renewal yields is cached; XModel: issuer failing / nothing stored
+    => removed, nothing issued, storage untouched; else a newly issued certificate for the name is
+    stored, cached and answers for the name. *)
+Theorem S_ocsp_pass_end_to_end : forall od idue s x dis now envs rns ord en c,
+  idue = false -> XP.XWF od x -> Abs s x -> NoDup (ids (cache s)) -> new_fresh (cache s) rns ->
+  In en (cache s) -> In c (MM.cache (XM.core x)) -> match_cert en c ->
+  (c_expiry (en_cert en) < now -> en_managed en = true -> recorded en = false) ->
+  let d := decided dis now envs s en in
+  let post14 := cache (fst (step s (OMaintain tick dis now envs rns))) in
+  let x' := XM.xrun od idue x (tick_history dis now envs s ord) in
+  let t := XM.core x in let t' := XM.core x' in let n := MM.chead c in
+  (d = false -> has_cert (eid en) post14 = true /\ In c (MM.cache t')) /\
+  (d = true -> MM.lock_held (MM.jobs t) n = false ->
+     has_cert (eid en) post14 = false /\ ~ In c (MM.cache t') /\ XM.flagged (XM.rev x') c = false /\
+     (forall newc e', rns (eid en) = ROk newc e' -> has_cert (c_id newc) post14 = true) /\
+     (MM.is_failing t n = true \/ MM.stored (MM.store t) n = None ->
+        MM.stored (MM.store t') n = MM.stored (MM.store t) n /\
+        MP.cnt (MM.issued t') n = MP.cnt (MM.issued t) n) /\
+     (MM.is_failing t n = false -> MM.stored (MM.store t) n <> None ->
+        exists N, MM.stored (MM.store t') n = Some N /\ In N (MM.cache t') /\ (MM.next t <= MM.cid N)%nat /\
+                  MM.cnames N = [n] /\ (MP.cnt (MM.issued t) n < MP.cnt (MM.issued t') n)%nat /\
+                  In N (MM.resolve n (MM.cache t')))).
+Proof. exact ocsp_pass_end_to_end. Qed.
+
+(** ... literally: a managed, unexpired certificate whose status is due for a refresh and whose
+    responder answers with a response that revokes it now (signed by its issuer or a valid delegate,
+    for its serial, in date, status Revoked) is, after the OCSP maintenance pass, not cached any more
+    in either model; in XModel it is replaced by a newly issued certificate (stored, cached,
+    answering for the name) or, issuer failing / nothing stored, just removed. *)
+Theorem S_ocsp_revoked_answer_end_to_end : forall od idue s x now envs rns ord en c b r,
+  idue = false -> XP.XWF od x -> Abs s x -> NoDup (ids (cache s)) -> new_fresh (cache s) rns ->
+  In en (cache s) -> In c (MM.cache (XM.core x)) -> match_cert en c ->
+  now <= c_expiry (en_cert en) -> en_managed en = true -> still_fresh now en = false ->
+  reusable (en_cert en) now (sget (eid en) (stor s)) = false -> c_url (en_cert en) = true ->
+  e_ans (envs (eid en)) = ABytes b -> b_parse b = Some r -> RevokedFor (en_cert en) now r ->
+  MM.lock_held (MM.jobs (XM.core x)) (MM.chead c) = false ->
+  let post14 := cache (fst (step s (OMaintain tick false now envs rns))) in
+  let x' := XM.xrun od idue x (tick_history false now envs s ord) in
+  let t := XM.core x in let t' := XM.core x' in let n := MM.chead c in
+  has_cert (eid en) post14 = false /\ ~ In c (MM.cache t') /\
+  (forall newc e', rns (eid en) = ROk newc e' -> has_cert (c_id newc) post14 = true) /\
+  ((MM.is_failing t n = true \/ MM.stored (MM.store t) n = None) /\
+     MM.stored (MM.store t') n = MM.stored (MM.store t) n /\ MP.cnt (MM.issued t') n = MP.cnt (MM.issued t) n
+   \/
+   exists N, MM.stored (MM.store t') n = Some N /\ In N (MM.cache t') /\ (MM.next t <= MM.cid N)%nat /\
+             MM.cnames N = [n] /\ In N (MM.resolve n (MM.cache t'))).
+Proof. exact revoked_answer_end_to_end. Qed.
+Print Assumptions S_ocsp_revoked_answer_end_to_end.
+
+(** C14 + C05, the negative direction: a certificate whose status is not already recorded as Revoked
+    and for which neither the responder's answer nor the persisted staple is a response that revokes
+    THIS certificate NOW is still cached after the pass, in both models - whatever was sent: another
+    serial, a bad signature, an expired / future response, Unknown, Good, garbage, nothing.  No
+    certificate is force-renewed or removed because of a response C14 rejects. *)
+Theorem S_ocsp_rejected_response_never_renews : forall od idue s x dis now envs rns ord en c,
+  XP.XWF od x -> idue = false -> Abs s x -> NoDup (ids (cache s)) -> new_fresh (cache s) rns ->
+  In en (cache s) -> In c (MM.cache (XM.core x)) -> match_cert en c ->
+  recorded en = false ->
+  (forall r, judged dis (en_cert en) now (envs (eid en)) (sget (eid en) (stor s)) = Some r ->
+             ~ RevokedFor (en_cert en) now r) ->
+  has_cert (eid en) (cache (fst (step s (OMaintain tick dis now envs rns)))) = true /\
+  In c (MM.cache (XM.core (XM.xrun od idue x (tick_history dis now envs s ord)))).
+Proof. exact rejected_response_never_renews. Qed.
+Print Assumptions S_ocsp_rejected_response_never_renews.
+
+(** C14 vs C05, what the cache holds after a pass: if no certificate's issuance lock is busy
+    (XModel's "would wait" case, which C14 does not have) and no expired managed certificate is
+    recorded Revoked, C14's pass (staple, write back, forceRenew per certificate) and XModel's pass
+    keep exactly the same old certificates, for Good / Revoked / unreachable-responder alike. *)
+Theorem S_ocsp_pass_same_survivors : forall od idue s x dis now envs rns ord,
+  idue = false -> XP.XWF od x -> Abs s x -> NoDup (ids (cache s)) -> new_fresh (cache s) rns ->
+  (forall en, In en (cache s) -> c_expiry (en_cert en) < now -> en_managed en = true -> recorded en = false) ->
+  (forall c, In c (MM.cache (XM.core x)) -> MM.lock_held (MM.jobs (XM.core x)) (MM.chead c) = false) ->
+  forall en c, In en (cache s) -> In c (MM.cache (XM.core x)) -> match_cert en c ->
+    (has_cert (eid en) (cache (fst (step s (OMaintain tick dis now envs rns)))) = true <->
+     In c (MM.cache (XM.core (XM.xrun od idue x (tick_history dis now envs s ord))))).
+Proof. exact pass_same_survivors. Qed.
+
+(** C14, the order inside the pass: what sits in the cache under an old certificate's identity after
+    a tick is that certificate (decision "no"), and its recorded status is Revoked only if the entry
+    is literally unchanged.  The tick writes back Good statuses only; a Revoked verdict is never
+    RECORDED in the cache, it goes to forceRenew within the same pass (maintain.go: [updated] is
+    filled only under [Status == ocsp.Good], the revoked copy goes into [renewQueue]).  So XModel's
+    [Revoke i] is not a cache write of the tick: it stands for the pass-local renew queue (or for a
+    status recorded at load time / by a handshake's write-back). *)
+Theorem S_ocsp_tick_never_records_revoked : forall s dis now envs rns en en',
+  NoDup (ids (cache s)) -> new_fresh (cache s) rns -> In en (cache s) ->
+  In en' (cache (fst (step s (OMaintain tick dis now envs rns)))) -> eid en' = eid en ->
+  decided dis now envs s en = false /\ en_cert en' = en_cert en /\ en_managed en' = en_managed en /\
+  (recorded en' = true -> en' = en).
+Proof. exact tick_never_records_revoked. Qed.
+
+(** R - the side condition is needed: XModel's [OcspPass] force-renews every managed flagged entry,
+    the tick (maintain.go "if cert.Leaf == nil || cert.Expired() { continue }", C14's [tick_one])
+    skips an expired certificate even if its recorded status is Revoked.  Witness: C14 keeps it,
+    XModel replaces it.  (XModel's notes list expired revoked certificates as not modelled.) *)
+Theorem S_ocsp_expired_revoked_pass_refuted :
+  exists s x od dis now envs rns ord en c,
+    Abs s x /\ XP.XWF od x /\ NoDup (ids (cache s)) /\ new_fresh (cache s) rns /\
+    In en (cache s) /\ In c (MM.cache (XM.core x)) /\ match_cert en c /\
+    c_expiry (en_cert en) < now /\ en_managed en = true /\ recorded en = true /\
+    MM.lock_held (MM.jobs (XM.core x)) (MM.chead c) = false /\
+    has_cert (eid en) (cache (fst (step s (OMaintain tick dis now envs rns)))) = true /\
+    ~ In c (MM.cache (XM.core (XM.xrun od false x (tick_history dis now envs s ord)))).
+Proof. exact expired_revoked_pass_refuted. Qed.
+Print Assumptions S_ocsp_expired_revoked_pass_refuted.
+
+(** C14 <-> C02 (Handshake.Model), the handshake path.  [hs_revokes] = the decision of C14's [hs_one]
+    ([hs_one_decision]: unexpired /\ managed /\ the status in the handshake's copy AFTER its own
+    refresh is Revoked).  If C02's certificate record sees the entry that way ([hs_abs]: c_managed,
+    a name, c_revoked = that status), C02's handshakeMaintenance takes the revocation branch
+    (renewDynamicCertificate -> forceRenew) in exactly the same cases. *)
+Theorem S_ocsp_handshake_decisions_agree : forall dis now e en st c is_space LAM w h held,
+  hs_abs dis now e en st c -> (c_expiry (en_cert en) <? now) = false -> H.c_ari c = None ->
+  c02_revokes c = hs_revokes dis now e en st /\
+  H.maintenance is_space LAM w h c held =
+    if hs_revokes dis now e en st then H.renew_dynamic is_space w h c held
+    else H.renew_if_necessary is_space LAM w h c held.
+Proof. exact handshake_decisions_agree. Qed.
+
+(** R - ... and not if [c_revoked] is read as the CACHED status (as its comment in Handshake/Model.v
+    says): a handshake that meets a stale Good status, asks, and is told Revoked force-renews
+    (handshake.go evaluates certShouldBeForceRenewed on the refreshed copy) although the cached
+    status is not Revoked.  C02 does not model the refresh; it is its environment event [OCacheSet]. *)
+Theorem S_ocsp_handshake_cached_flag_refuted :
+  exists dis now e en st,
+    (c_expiry (en_cert en) <? now) = false /\ en_managed en = true /\
+    recorded en = false /\ hs_revokes dis now e en st = true.
+Proof. exact handshake_cached_flag_refuted. Qed.
+
+(** C14 <-> C06/C07 (Bundle.Model), manageOne on a just-loaded certificate.  If the bundle model's
+    loaded certificate [mc] sees C14's entry as [bundle_abs] says (is_expired = expiry < now,
+    managed, [m_rev <> None] = recorded Revoked), the two models force-renew in the same cases.
+    The revocation REASON ([m_rev = Some true]: keyCompromise => moveCompromisedPrivateKey + obtain;
+    [Some false]: forced renewal) is NOT in C14's model ([Ocsp.Model.resp] has no reason field): both
+    cases are C14's status Revoked, and C14's forceRenew outcome is an oracle covering either. *)
+Theorem S_ocsp_manage_decisions_agree : forall dis now rn en st mc pl cfg sp orc w w1,
+  bundle_abs now en mc ->
+  B.catch (B.load_managed pl cfg (B.s_load sp)) w = (B.Ok (inl mc), w1) ->
+  bundle_revokes mc = (negb (c_expiry (en_cert en) <? now) && en_managed en && recorded en) /\
+  (bundle_revokes mc = true ->
+     manage_one dis now rn en st = do_renew dis now rn st /\
+     B.manage pl cfg sp orc w = B.force_renew pl cfg sp orc mc w1) /\
+  (bundle_revokes mc = false ->
+     manage_one dis now rn en st = ([en], st, []) /\
+     B.manage pl cfg sp orc w =
+       if B.is_due (B.m_c mc)
+       then B.bind (B.renew pl cfg sp orc false) (fun _ => B.load_managed pl cfg (B.s_save sp)) w1
+       else B.ret mc w1).
+Proof. exact manage_decisions_agree. Qed.
+
+(** Non-vacuity.  A cache of three managed certificates seen by both models ([Ex.s0], [Ex.x0]); the
+    responder says Revoked (verified, in date, right serial) for 1, Good for 2, is unreachable for 3. *)
+Example S_ocsp_ex_hypotheses :
+  XP.XWF Ex.od Ex.x0 /\ Abs Ex.s0 Ex.x0 /\ NoDup (ids (cache Ex.s0)) /\ new_fresh (cache Ex.s0) Ex.rns.
+Proof. split; [exact Ex.x0_wf|]. split; [exact Ex.abs0|]. exact Ex.wf0. Qed.
+
+(** the decisions, the events they stand for, and both caches after the pass: 1 is replaced by the
+    newly issued 5 in both models, 2 and 3 stay; no lock is busy *)
+Example S_ocsp_ex_pass :
+  map (decided false 1600 Ex.envs Ex.s0) (cache Ex.s0) = [true; false; false] /\
+  tick_history false 1600 Ex.envs Ex.s0 [] = [XM.Revoke 1; XM.OcspPass []] /\
+  ids (cache (fst (step Ex.s0 (OMaintain tick false 1600 Ex.envs Ex.rns)))) = [5; 2; 3] /\
+  map MM.cid (MM.cache (XM.core (XM.xrun Ex.od false Ex.x0 (tick_history false 1600 Ex.envs Ex.s0 [])))) = [2; 3; 5]%nat /\
+  XM.rev (XM.xrun Ex.od false Ex.x0 (tick_history false 1600 Ex.envs Ex.s0 [])) = [] /\
+  (forall c, In c (MM.cache (XM.core Ex.x0)) -> MM.lock_held (MM.jobs (XM.core Ex.x0)) (MM.chead c) = false).
+Proof. exact Ex.decisions. Qed.
+
+(** the hypotheses of [S_ocsp_revoked_answer_end_to_end] hold of certificate 1 *)
+Example S_ocsp_ex_revoked_answer :
+  let en := Entry Ex.k1 true (CS None None) 0 in
+  In en (cache Ex.s0) /\ In (Ex.m 1) (MM.cache (XM.core Ex.x0)) /\ match_cert en (Ex.m 1) /\
+  1600 <= c_expiry Ex.k1 /\ still_fresh 1600 en = false /\
+  reusable Ex.k1 1600 (sget (eid en) (stor Ex.s0)) = false /\ c_url Ex.k1 = true /\
+  e_ans (Ex.envs (eid en)) = ABytes (Blob 21 (Some (Ex.rsp Revoked 11))) /\
+  RevokedFor Ex.k1 1600 (Ex.rsp Revoked 11).
+Proof. exact Ex.revoked_answer_hypotheses. Qed.
+
+(** the hypothesis of [S_ocsp_rejected_response_never_renews] holds of certificate 2 (answer Good),
+    of 3 (unreachable), and of 1 if the Revoked response carries another serial / a bad signature /
+    is expired / says Unknown *)
+Example S_ocsp_ex_rejected :
+  (forall r, judged false Ex.k2 1600 (Ex.envs 2) None = Some r -> ~ RevokedFor Ex.k2 1600 r) /\
+  (forall r, judged false Ex.k3 1600 (Ex.envs 3) None = Some r -> ~ RevokedFor Ex.k3 1600 r) /\
+  (forall r, judged false Ex.k1 1600 (Ex.env_of (Blob 31 (Some (Ex.rsp Revoked 12)))) None = Some r -> ~ RevokedFor Ex.k1 1600 r) /\
+  (forall r, judged false Ex.k1 1600 (Ex.env_of (Blob 32 (Some (Resp Revoked 11 1500 3000 None false)))) None = Some r -> ~ RevokedFor Ex.k1 1600 r) /\
+  (forall r, judged false Ex.k1 1600 (Ex.env_of (Blob 33 (Some (Resp Revoked 11 1000 1550 None true)))) None = Some r -> ~ RevokedFor Ex.k1 1600 r) /\
+  (forall r, judged false Ex.k1 1600 (Ex.env_of (Blob 34 (Some (Ex.rsp Unknown 11)))) None = Some r -> ~ RevokedFor Ex.k1 1600 r).
+Proof. exact Ex.rejected. Qed.
+
+(** the abstractions of the handshake and manageOne theorems are inhabited: a C02 certificate record
+    for an entry whose stale Good status is refreshed to Revoked; a bundle-model world in which the CA
+    has revoked the stored certificate (not for key compromise) and [manage] loads it as such *)
+Example S_ocsp_ex_handshake :
+  hs_abs false 2500 (Ex.envs 1) Ex3.hen [] Ex3.hc /\ ((c_expiry (en_cert Ex3.hen) <? 2500) = false) /\
+  H.c_ari Ex3.hc = None /\ hs_revokes false 2500 (Ex.envs 1) Ex3.hen [] = true.
+Proof. exact Ex3.hs_abs_met. Qed.
+Example S_ocsp_ex_manage :
+  exists mc w1,
+    B.catch (B.load_managed B.no_faults Ex3.cfg (B.s_load Ex3.sp)) Ex3.wc = (B.Ok (inl mc), w1) /\
+    B.m_rev mc = Some false /\ bundle_abs 1600 Ex3.men mc /\ bundle_revokes mc = true.
+Proof. exact Ex3.bundle_abs_met. Qed.
+
+(** all theorems and examples of this module *)
+Definition S11_all := (S_ocsp_tick_decision_iff, S_ocsp_revoke_events_are_c14_decisions, S_ocsp_pass_end_to_end, S_ocsp_revoked_answer_end_to_end, S_ocsp_rejected_response_never_renews, S_ocsp_pass_same_survivors, S_ocsp_tick_never_records_revoked, S_ocsp_expired_revoked_pass_refuted, S_ocsp_handshake_decisions_agree, S_ocsp_handshake_cached_flag_refuted, S_ocsp_manage_decisions_agree, S_ocsp_ex_hypotheses, S_ocsp_ex_pass, S_ocsp_ex_revoked_answer, S_ocsp_ex_rejected, S_ocsp_ex_handshake, S_ocsp_ex_manage).
+Print Assumptions S11_all.
+End S11.
+
+(* ================================================================================================ *)
+(* scopes opened by the previous part do not reach this one *)
+Close Scope N_scope. Close Scope Z_scope. Close Scope positive_scope. Close Scope string_scope. Close Scope char_scope.
+
+(** ===== S12: Maintain (C05) <=> Issuance (C01), continued (what S9 left open): the background OBTAIN job,
+    the SYNCHRONOUS manage, and the ASYNCHRONOUS manage =====
+    Files: System/MaintainIssuance6.v (one obtain job: both sides), MaintainIssuance7.v (agreement theorem,
+    re-check under the lock, incomplete bundles), MaintainIssuance8.v (synchronous manage: both sides),
+    MaintainIssuance9.v (agreement theorem), MaintainIssuance10.v ([seen] is cached; key mismatch; async manage),
+    MaintainIssuance11.v (incomplete bundles are absent).
+    S9's translation, thread driver ([trun], [trun_run]), segments and lemmas are reused, not duplicated.
+    Maintain.Model and Issuance.Model share names: used qualified ([M.], [I.]). *)
+From Coq Require Import List Bool Arith.
+From CM Require Issuance.Model Maintain.Model Issuance.Base Maintain.Base Maintain.Proofs.
+From CM Require System.MaintainIssuance3 System.MaintainIssuance4 System.MaintainIssuance6 System.MaintainIssuance7
+                System.MaintainIssuance8 System.MaintainIssuance9 System.MaintainIssuance10 System.MaintainIssuance11.
+
+Module S12.
+Import ListNotations.
+Import CM.System.MaintainIssuance3 CM.System.MaintainIssuance4 CM.System.MaintainIssuance6 CM.System.MaintainIssuance7
+       CM.System.MaintainIssuance8 CM.System.MaintainIssuance9 CM.System.MaintainIssuance10 CM.System.MaintainIssuance11.
+Notation WF := CM.Maintain.Base.WF.
+Notation no_job_for := CM.Maintain.Proofs.no_job_for.
+
+(** AGREEMENT ON ONE BACKGROUND OBTAIN JOB (Maintain.Model [job_step] on a [JObtain] job  <=>  Issuance.Model thread
+    [PObtain true] = ObtainCertAsync, config.go:508).  For EVERY Maintain state (other jobs, passes, cache arbitrary) in
+    which the k-th job for [n] is a queued obtain job and the lock of [n] is free, and EVERY Issuance state (any other
+    threads) in which thread [t] is such a request at its entry (pre-check name = save name = n), its lock free; storage
+    holding a COMPLETE bundle for [n] (same certificate on both sides) or NONE of its three files ([bundle_rel]);
+    ReusePrivateKeys, DisableStorageCheck, issuer handing out due certificates or not, ANY number [m] of failed attempts:
+    running the job alone ([mh_obtain]: pre-check [-> loaded, done | lock; issuer fails; m attempts; recovers; attempt] //
+    [lbl_obtain]: Exists crt,key,meta [-> nil | checkStorage, Lock, m x (Exists crt, cert_obtaining, [Load key], Issue
+    fails, cert_failed, retry), Exists crt, cert_obtaining, [Load key], Issue, Store x3, cert_obtained, Unlock]) the
+    two models agree on
+    1. the issuer: called iff NOTHING is stored, once per attempt (1 + m, or 0 + 0);
+    2. storage: new certificate (fresh identity, due-ness from the issuer) stored iff nothing was; [bundle_rel] holds
+       again; bundle present: the Issuance shared state is untouched; every other name / key untouched (scratch key);
+    3. the lock: free afterwards on both sides, all other locks untouched;
+    4. control: the request returns nil.  Bundle present: Maintain loads it into the cache at once and the job ends;
+       else the job is at [Reload], nothing cached yet, and its LAST step (CacheManagedCertificate, which is in
+       manageOne's closure and not in obtainCert, hence has no [PObtain] counterpart) caches the NEW certificate;
+    5. the identity counters stay synchronised. *)
+
+Theorem S_maintain_issuance_obtain_job_agree : forall od idue (s0 : M.state) n k old pre post (si : I.state) t th lk idn reuse chk m,
+  (* Maintain: the k-th job for n is an obtain job that has not started; nobody holds the lock *)
+  M.split_job n k (M.jobs s0) = Some (pre, M.Job n M.JObtain old M.Queued, post) ->
+  M.lock_held (M.jobs s0) n = false ->
+  (* Issuance: thread t is an ObtainCertAsync request at its entry; the lock is free *)
+  nth_error (I.thr si) t = Some th ->
+  I.cfg th = ocfg lk n idn reuse chk idue ->
+  I.tpc th = I.PPre I.KCrt -> I.cur th = I.OpObtain -> I.canc th = false ->
+  I.lks (I.sh si) lk = None ->
+  (* translation: a complete bundle with the same certificate on both sides, or none of its files *)
+  bundle_rel (M.store s0) (I.sto (I.sh si)) n -> M.next s0 = I.ncid (I.sh si) ->
+  let present := is_some (M.stored (M.store s0) n) in
+  let sm := M.run od idue s0 (mh_obtain n k present m) in
+  let es := ev_obtain t lk n idn reuse chk present m in
+  exists si',
+    I.run si (labels_of t (lbl_obtain reuse chk present m)) = Some (si', es) /\
+    (* 1. the issuer: called iff NOTHING is stored; once per attempt *)
+    (M.issued sm = repeat n (count_iss idn 0 es) ++ M.issued s0 /\
+     M.failed sm = repeat n (count_iss idn 2 es) ++ M.failed s0 /\
+     count_iss idn 0 es = (if present then 0 else 1) /\ count_iss idn 2 es = (if present then 0 else m)) /\
+    (* 2. storage: a new certificate is stored iff nothing was; nothing else changes *)
+    (bundle_rel (M.store sm) (I.sto (I.sh si')) n /\
+     (if present
+      then M.store sm = M.store s0 /\ I.sh si' = I.sh si
+      else M.stored (M.store sm) n = Some (M.Cert (M.next s0) n [] idue true) /\
+           exists key, I.sto (I.sh si') (I.SK n I.KCrt) = Some (I.VCrt (I.Cert (I.ncid (I.sh si)) key idue))) /\
+     (forall n', n' <> n -> M.stored (M.store sm) n' = M.stored (M.store s0) n') /\
+     (forall key, key <> I.RW t -> (forall j, key <> I.SK n j) -> I.sto (I.sh si') key = I.sto (I.sh si) key)) /\
+    (* 3. the lock: free afterwards on both sides (Issuance: every other lock untouched) *)
+    (M.lock_held (M.jobs sm) n = false /\ I.lks (I.sh si') lk = None /\
+     forall l, l <> lk -> I.lks (I.sh si') l = I.lks (I.sh si) l) /\
+    (* 4. control: the request has returned nil.  Maintain: bundle present => loaded into the
+          cache at once, job gone; else the job is at [Reload], nothing cached yet, and its last
+          step (CacheManagedCertificate, outside obtainCert) caches the NEW certificate *)
+    (M.lasterr sm = false /\
+     match M.stored (M.store s0) n with
+     | Some mc => M.jobs sm = pre ++ post /\ M.cache sm = M.cache_add mc (M.cache s0)
+     | None => M.jobs sm = pre ++ M.Job n M.JObtain old M.Reload :: post /\ M.cache sm = M.cache s0 /\
+               let sm' := M.step od idue sm (M.JobStep n k) in
+               M.jobs sm' = pre ++ post /\ M.cache sm' = M.cache_add (M.Cert (M.next s0) n [] idue true) (M.cache s0) /\
+               M.store sm' = M.store sm /\ M.issued sm' = M.issued sm /\ M.failed sm' = M.failed sm
+     end /\
+     exists th', nth_error (I.thr si') t = Some th' /\ I.tpc th' = I.PDone I.ROk /\ I.seen th' = I.seen th) /\
+    (* 5. the identity counters stay synchronised *)
+    M.next sm = I.ncid (I.sh si').
+Proof. exact obtain_job_agree. Qed.
+Print Assumptions S_maintain_issuance_obtain_job_agree.
+
+
+(** the lock in between.  Maintain: held after the first step and after each failed attempt; Issuance: the trace
+    [ev_obtain .. false m] is  a ++ LockAcquired :: b ++ [Unlock]  with no lock event in a, b and no issuer call in a. *)
+Theorem S_maintain_issuance_obtain_job_lock_span :
+  (forall od idue (s0 : M.state) n k old pre post i,
+     M.split_job n k (M.jobs s0) = Some (pre, M.Job n M.JObtain old M.Queued, post) ->
+     M.lock_held (M.jobs s0) n = false ->
+     M.stored (M.store s0) n = None ->
+     M.lock_held (M.jobs (M.run od idue s0 (M.JobStep n k :: M.SetIssuer n true :: repeat (M.JobStep n k) i))) n = true) /\
+  (forall t lk n idn reuse chk m,
+     exists a b, ev_obtain t lk n idn reuse chk false m = a ++ I.Ev t (I.OAcq lk) 0 :: b ++ [I.Ev t (I.OUnlock lk) 0] /\
+       (forall e, In e (a ++ b) -> forall l, I.e_op e <> I.OAcq l /\ I.e_op e <> I.OUnlock l) /\
+       (forall e, In e a -> is_iss idn 0 e = false /\ is_iss idn 2 e = false)).
+Proof. split; [exact obtain_job_lock_held_meanwhile|exact ev_obtain_lock_span]. Qed.
+
+(** THE RE-CHECK UNDER THE LOCK ("certificate already exists in storage", config.go:550).  Nothing stored at the
+    pre-check; the job takes the lock; then somebody else stores a bundle (Maintain: event [ExtRenew n rest]; Issuance:
+    ANY state in which thread [t] is as it was, still owns the lock, and the three files exist); the re-check finds it:
+    both sides end the job without calling the issuer, storage as the other writer left it, lock free. *)
+
+Theorem S_maintain_issuance_obtain_job_recheck_agree : forall od idue (s0 : M.state) n k old pre post rest (si : I.state) t th lk idn reuse chk,
+  M.split_job n k (M.jobs s0) = Some (pre, M.Job n M.JObtain old M.Queued, post) ->
+  M.lock_held (M.jobs s0) n = false ->
+  M.stored (M.store s0) n = None ->
+  nth_error (I.thr si) t = Some th ->
+  I.cfg th = ocfg lk n idn reuse chk idue ->
+  I.tpc th = I.PPre I.KCrt -> I.cur th = I.OpObtain -> I.canc th = false ->
+  I.lks (I.sh si) lk = None ->
+  I.sto (I.sh si) (I.SK n I.KCrt) = None ->
+  let sm := M.run od idue s0 [M.JobStep n k; M.ExtRenew n rest; M.JobStep n k] in
+  (* Maintain: no issuer call, the other instance's bundle is what is stored, lock free, [Reload] *)
+  (M.issued sm = M.issued s0 /\ M.failed sm = M.failed s0 /\
+   M.stored (M.store sm) n = Some (M.Cert (M.next s0) n rest false true) /\
+   M.lock_held (M.jobs sm) n = false /\ M.jobs sm = pre ++ M.Job n M.JObtain old M.Reload :: post /\
+   M.lock_held (M.jobs (M.run od idue s0 [M.JobStep n k; M.ExtRenew n rest])) n = true) /\
+  (* Issuance, first half: pre-check, [checkStorage], lock *)
+  exists si1 th1,
+    I.run si (labels_of t (lbl_oA chk)) = Some (si1, ev_oA t lk n chk) /\
+    nth_error (I.thr si1) t = Some th1 /\ I.lks (I.sh si1) lk = Some t /\
+    (* second half, from any state in which [t] is as it was, still owns the lock, and the three
+       files exist: re-check, Unlock, nil; nothing stored, no issuer call *)
+    forall si2 vc vk vm,
+      nth_error (I.thr si2) t = Some th1 -> I.lks (I.sh si2) lk = Some t ->
+      I.sto (I.sh si2) (I.SK n I.KCrt) = Some vc -> I.sto (I.sh si2) (I.SK n I.KKey) = Some vk ->
+      I.sto (I.sh si2) (I.SK n I.KMeta) = Some vm ->
+      exists si3 th3,
+        I.run si2 (labels_of t lbl_orecheck) = Some (si3, ev_orecheck t lk n) /\
+        count_iss idn 0 (ev_oA t lk n chk ++ ev_orecheck t lk n) = 0 /\
+        count_iss idn 2 (ev_oA t lk n chk ++ ev_orecheck t lk n) = 0 /\
+        I.sto (I.sh si3) = I.sto (I.sh si2) /\ I.lks (I.sh si3) lk = None /\
+        nth_error (I.thr si3) t = Some th3 /\ I.tpc th3 = I.PDone I.ROk /\ I.seen th3 = I.seen th.
+Proof. exact obtain_job_recheck_agree. Qed.
+
+
+(** INCOMPLETE BUNDLES ARE ABSENT (Issuance.Model, for Maintain.Model whose [store] cannot express them): in EVERY state,
+    whenever any of the three files of name [n] is missing, obtainCert's pre-check (Exists crt && key && meta,
+    config.go:1229) answers "no" within three Exists and the request continues as from empty storage; manageOne's
+    CacheManagedCertificate (Load key, crt, meta; fs.ErrNotExist) fails within three Loads and enters the obtain path,
+    nothing cached; storage and locks untouched.  Hence "stored n = Some _ iff all three files exist" is the right
+    abstraction and the complete-or-absent hypothesis ([bundle_rel]) of the agreement theorems loses nothing. *)
+Theorem S_issuance_incomplete_bundle_is_absent : forall (si : I.state) t th n,
+  nth_error (I.thr si) t = Some th -> I.canc th = false ->
+  I.c_pk (I.cfg th) = n -> I.c_vk (I.cfg th) = n ->
+  incomplete (I.sto (I.sh si)) n ->
+  (* obtainCert (sync or async) at its pre-check *)
+  (forall a, I.c_prog (I.cfg th) = I.PObtain a -> I.tpc th = I.PPre I.KCrt -> I.cur th = I.OpObtain ->
+     exists fbs es,
+       I.run si (labels_of t fbs) = Some (I.State (I.upd (I.thr si) t (I.set_pc th (I.after_pre (I.cfg th)))) (I.sh si), es) /\
+       1 <= length es <= 3 /\ (forall e, In e es -> exists j o, e = I.Ev t (I.OExists (I.SK n j)) o)) /\
+  (* manageOne (sync) at its first load *)
+  (I.c_prog (I.cfg th) = I.PManage -> I.tpc th = I.PMLd I.Ph0 I.KKey -> I.cur th = I.OpObtain ->
+     exists fbs es th',
+       I.run si (labels_of t fbs) = Some (I.State (I.upd (I.thr si) t th') (I.sh si), es) /\
+       I.tpc th' = I.PPre I.KCrt /\ I.cur th' = I.OpObtain /\ I.seen th' = I.seen th /\ I.cfg th' = I.cfg th /\
+       1 <= length es <= 3 /\ (forall e, In e es -> exists j o, e = I.Ev t (I.OLoad (I.SK n j)) o)).
+Proof. exact incomplete_bundle_is_absent. Qed.
+
+(** AGREEMENT ON SYNCHRONOUS MANAGE (Maintain.Model event [Manage n false]  <=>  Issuance.Model thread [PManage] run alone
+    to [PDone]; both = manageOne with async = false, config.go:396).  For EVERY Maintain state in which [n] is not
+    on-demand, not yet managed in the cache, its lock free, and EVERY Issuance state in which thread [t] is a ManageSync
+    request at its entry, its lock free; complete-or-absent storage ([bundle_rel]) whose stored key is the stored
+    certificate's key; issuer failing for [n] or not ([fail]: Maintain [is_failing], Issuance fault FErr at IssueStart):
+    the whole case table of [C05_manage_load_else_obtain_renew_if_due] holds ON BOTH SIDES:
+    1. the issuer is called iff nothing is stored or the stored certificate is due -- exactly once (one attempt);
+    2. a new certificate is stored iff that call succeeded; nothing else changes;
+    3. the lock is free afterwards, Maintain creates no job;
+    4. the caller gets an error iff the needed issuance failed ([lasterr] / [PDone RErr]);
+    5. THE CACHE: Maintain's [cache_add] / [reload_one]  ~  Issuance's [seen]:
+         nothing stored, issuer fails  -> nothing cached on either side;
+         nothing stored, issuer ok     -> the new certificate;
+         stored, not due               -> the stored certificate;
+         stored, due, issuer FAILS     -> the OLD certificate stays cached on BOTH sides (manageOne caches before it renews);
+         stored, due, issuer ok        -> the new certificate ([cache_replace old new] / [seen] overwritten after reload);
+    6. the identity counters stay synchronised. *)
+
+Theorem S_maintain_issuance_manage_sync_agree : forall od idue (s0 : M.state) n (si : I.state) t th lk idn reuse chk force fail,
+  (* Maintain: not on-demand, not yet managed, nobody holds the lock; the issuer's status *)
+  od n = false -> M.managed_for n (M.cache s0) = false -> M.lock_held (M.jobs s0) n = false ->
+  M.is_failing s0 n = fail ->
+  (forall mc, M.stored (M.store s0) n = Some mc -> M.chead mc = n) ->          (* part of [WF] *)
+  (* Issuance: thread t is a ManageSync request at its entry; the lock is free *)
+  nth_error (I.thr si) t = Some th ->
+  I.cfg th = mcfg lk n idn reuse chk force idue ->
+  I.tpc th = I.PMLd I.Ph0 I.KKey -> I.cur th = I.OpObtain -> I.canc th = false ->
+  I.lks (I.sh si) lk = None ->
+  (* translation: complete bundle with the same certificate, or none of its files; the stored
+     key is the stored certificate's key *)
+  bundle_rel (M.store s0) (I.sto (I.sh si)) n ->
+  (forall kk ic, I.sto (I.sh si) (I.SK n I.KKey) = Some (I.VKey kk) ->
+                 I.sto (I.sh si) (I.SK n I.KCrt) = Some (I.VCrt ic) -> I.c_kid ic = kk) ->
+  M.next s0 = I.ncid (I.sh si) ->
+  let st := M.stored (M.store s0) n in
+  let present := is_some st in
+  let due := match st with Some mc => M.cdue mc | None => false end in
+  let okI := need present due && negb fail in     (* an issuance is needed and succeeds *)
+  let errI := need present due && fail in         (* ... is needed and fails *)
+  let new := M.Cert (M.next s0) n [] idue true in
+  let sm := M.step od idue s0 (M.Manage n false) in
+  let es := ev_manage t lk n idn reuse chk present due fail in
+  exists si' th',
+    I.run si (labels_of t (lbl_manage reuse chk present due fail)) = Some (si', es) /\
+    nth_error (I.thr si') t = Some th' /\
+    (* 1. the issuer: called iff nothing is stored or the stored certificate is due; once *)
+    (M.issued sm = repeat n (count_iss idn 0 es) ++ M.issued s0 /\
+     M.failed sm = repeat n (count_iss idn 2 es) ++ M.failed s0 /\
+     count_iss idn 0 es = (if okI then 1 else 0) /\ count_iss idn 2 es = (if errI then 1 else 0)) /\
+    (* 2. storage: a new certificate is stored iff Issue succeeded; nothing else changes *)
+    (bundle_rel (M.store sm) (I.sto (I.sh si')) n /\
+     (if okI
+      then M.stored (M.store sm) n = Some new /\
+           exists key, I.sto (I.sh si') (I.SK n I.KCrt) = Some (I.VCrt (I.Cert (I.ncid (I.sh si)) key idue))
+      else M.store sm = M.store s0 /\ forall j, I.sto (I.sh si') (I.SK n j) = I.sto (I.sh si) (I.SK n j)) /\
+     (forall n', n' <> n -> M.stored (M.store sm) n' = M.stored (M.store s0) n') /\
+     (forall key, key <> I.RW t -> (forall j, key <> I.SK n j) -> I.sto (I.sh si') key = I.sto (I.sh si) key)) /\
+    (* 3. the lock: free afterwards (Maintain: no job created); other locks untouched *)
+    (M.jobs sm = M.jobs s0 /\ I.lks (I.sh si') lk = None /\
+     forall l, l <> lk -> I.lks (I.sh si') l = I.lks (I.sh si) l) /\
+    (* 4. the caller: an error iff the needed issuance failed *)
+    (M.lasterr sm = errI /\ I.tpc th' = I.PDone (if errI then I.RErr else I.ROk)) /\
+    (* 5. the cache: Maintain's [cache_add] / [reload_one]  ~  Issuance's [seen] *)
+    match st with
+    | None =>
+        if fail then M.cache sm = M.cache s0 /\ I.seen th' = I.seen th
+        else M.cache sm = M.cache_add new (M.cache s0) /\
+             exists key, I.seen th' = Some (I.Cert (I.ncid (I.sh si)) key idue)
+    | Some mc =>
+        if M.cdue mc && negb fail
+        then M.cache sm = M.cache_replace mc new (M.cache_add mc (M.cache s0)) /\
+             exists key, I.seen th' = Some (I.Cert (I.ncid (I.sh si)) key idue)
+        else (* not due, or due and the renewal FAILED: the old certificate stays cached *)
+             M.cache sm = M.cache_add mc (M.cache s0) /\
+             exists ic, I.sto (I.sh si) (I.SK n I.KCrt) = Some (I.VCrt ic) /\ I.seen th' = Some ic /\ cert_rel mc ic
+    end /\
+    (* 6. the identity counters stay synchronised *)
+    M.next sm = I.ncid (I.sh si').
+Proof. exact manage_sync_agree. Qed.
+Print Assumptions S_maintain_issuance_manage_sync_agree.
+
+
+(** ... and with Maintain's invariant [WF] (C05_wf_invariant): the certificate Issuance's [seen] designates IS in
+    Maintain's cache and is the certificate storage now holds; [seen = None] only when nothing was stored and the
+    obtain failed; a successful renewal removed the old certificate from Maintain's cache. *)
+
+Theorem S_maintain_issuance_manage_sync_seen_is_cached : forall od idue (s0 : M.state) n (si : I.state) t th lk idn reuse chk force fail,
+  WF od s0 ->
+  od n = false -> M.managed_for n (M.cache s0) = false -> M.lock_held (M.jobs s0) n = false ->
+  M.is_failing s0 n = fail ->
+  nth_error (I.thr si) t = Some th ->
+  I.cfg th = mcfg lk n idn reuse chk force idue ->
+  I.tpc th = I.PMLd I.Ph0 I.KKey -> I.cur th = I.OpObtain -> I.canc th = false -> I.seen th = None ->
+  I.lks (I.sh si) lk = None ->
+  bundle_rel (M.store s0) (I.sto (I.sh si)) n ->
+  (forall kk ic, I.sto (I.sh si) (I.SK n I.KKey) = Some (I.VKey kk) ->
+                 I.sto (I.sh si) (I.SK n I.KCrt) = Some (I.VCrt ic) -> I.c_kid ic = kk) ->
+  M.next s0 = I.ncid (I.sh si) ->
+  let st := M.stored (M.store s0) n in
+  let present := is_some st in
+  let due := match st with Some mc => M.cdue mc | None => false end in
+  let sm := M.step od idue s0 (M.Manage n false) in
+  exists si' th',
+    I.run si (labels_of t (lbl_manage reuse chk present due fail)) =
+      Some (si', ev_manage t lk n idn reuse chk present due fail) /\
+    nth_error (I.thr si') t = Some th' /\
+    match I.seen th' with
+    | Some ic' =>
+        (* what the request cached is in Maintain's cache, and it is what storage now holds *)
+        exists mc', In mc' (M.cache sm) /\ M.stored (M.store sm) n = Some mc' /\ cert_rel mc' ic'
+    | None =>
+        (* nothing cached: nothing was stored and the obtain failed *)
+        M.cache sm = M.cache s0 /\ M.lasterr sm = true /\ I.tpc th' = I.PDone I.RErr /\ st = None
+    end /\
+    (* a successful renewal replaced the old certificate *)
+    (forall mc, st = Some mc -> M.cdue mc = true -> fail = false -> ~ In mc (M.cache sm)).
+Proof. exact manage_sync_seen_is_cached. Qed.
+
+
+(** OUTSIDE THE OVERLAP (finding about the hypothesis "stored key = stored certificate's key"): with a key file that is
+    not the certificate's key the Issuance request -- as CacheManagedCertificate / tls.X509KeyPair in the Go code --
+    returns an error without caching and without obtaining; Maintain, which has no keys, caches the certificate and
+    returns nil from the [bundle_rel]-related store. *)
+
+Theorem S_maintain_manage_key_mismatch_refuted :
+  exists si' es,
+    I.run (I.init_state [mcfg 8 4 4 false false false false] mis_sto) (repeat (I.Label 0 I.FNone false) 3) = Some (si', es) /\
+    map I.tpc (I.thr si') = [I.PDone I.RErr] /\ map I.seen (I.thr si') = [None] /\ count_iss 4 0 es = 0 /\
+    bundle_rel (M.store mis_m) mis_sto 4 /\
+    let sm := M.step (fun _ => false) false mis_m (M.Manage 4 false) in
+    M.lasterr sm = false /\ M.cache sm = [M.Cert 9 4 [] false true].
+Proof. exact manage_key_mismatch_refuted. Qed.
+Print Assumptions S_maintain_manage_key_mismatch_refuted.
+
+
+(** ASYNCHRONOUS MANAGE.  Issuance.Model has no asynchronous [PManage] (ManageAsync's job queue is not in the model).
+    manageOne(async) = load-and-cache + jm.Submit(job); the job = ObtainCertAsync + CacheManagedCertificate, resp.
+    RenewCertAsync + reloadManagedCertificate.  Maintain: event [Manage n true] + [JobStep]s; Issuance: the job's
+    obtainCert / renewCert = threads [PObtain true] / [PRenew true].  The two compositions: after Maintain's enqueueing
+    step the hypotheses of the job theorems hold (k = 0), so the job started by an asynchronous manage agrees with the
+    Issuance thread for ANY number [m] of failed attempts; Maintain then ends where the synchronous manage ends.
+    (1) nothing stored -> obtain job: *)
+
+Theorem S_maintain_issuance_manage_async_obtain_agree : forall od idue (s0 : M.state) n (si : I.state) t th lk idn reuse chk m,
+  od n = false -> M.managed_for n (M.cache s0) = false -> no_job_for n (M.jobs s0) = true ->
+  M.stored (M.store s0) n = None ->
+  nth_error (I.thr si) t = Some th ->
+  I.cfg th = ocfg lk n idn reuse chk idue ->
+  I.tpc th = I.PPre I.KCrt -> I.cur th = I.OpObtain -> I.canc th = false ->
+  I.lks (I.sh si) lk = None ->
+  bundle_rel (M.store s0) (I.sto (I.sh si)) n -> M.next s0 = I.ncid (I.sh si) ->
+  let new := M.Cert (M.next s0) n [] idue true in
+  let s1 := M.step od idue s0 (M.Manage n true) in
+  let sm := M.run od idue s0 (M.Manage n true :: mh_obtain n 0 false m) in
+  let es := ev_obtain t lk n idn reuse chk false m in
+  (* the asynchronous call itself: only enqueues *)
+  (M.jobs s1 = M.jobs s0 ++ [M.Job n M.JObtain None M.Queued] /\ M.store s1 = M.store s0 /\ M.cache s1 = M.cache s0 /\
+   M.issued s1 = M.issued s0 /\ M.failed s1 = M.failed s0 /\ M.lasterr s1 = false) /\
+  (* its job and the Issuance thread *)
+  exists si',
+    I.run si (labels_of t (lbl_obtain reuse chk false m)) = Some (si', es) /\
+    (M.issued sm = repeat n (count_iss idn 0 es) ++ M.issued s0 /\
+     M.failed sm = repeat n (count_iss idn 2 es) ++ M.failed s0 /\
+     count_iss idn 0 es = 1 /\ count_iss idn 2 es = m) /\
+    (bundle_rel (M.store sm) (I.sto (I.sh si')) n /\ M.stored (M.store sm) n = Some new /\
+     exists key, I.sto (I.sh si') (I.SK n I.KCrt) = Some (I.VCrt (I.Cert (I.ncid (I.sh si)) key idue))) /\
+    (M.lock_held (M.jobs sm) n = false /\ I.lks (I.sh si') lk = None) /\
+    (exists th', nth_error (I.thr si') t = Some th' /\ I.tpc th' = I.PDone I.ROk) /\
+    (* ... and after the job's last step Maintain is where the SYNCHRONOUS manage ends *)
+    let sm' := M.step od idue sm (M.JobStep n 0) in
+    M.jobs sm' = M.jobs s0 /\ M.cache sm' = M.cache_add new (M.cache s0) /\ M.store sm' = M.store sm /\
+    M.next sm = I.ncid (I.sh si').
+Proof. exact manage_async_obtain_agree. Qed.
+
+
+(** (2) a due certificate stored -> cached at once (as the synchronous manage), renewal job (S9's job theorem): *)
+
+Theorem S_maintain_issuance_manage_async_renew_agree : forall od idue (s0 : M.state) n mc (si : I.state) t th lk pk idn reuse chk kk ic vm m,
+  od n = false -> M.managed_for n (M.cache s0) = false -> no_job_for n (M.jobs s0) = true ->
+  M.stored (M.store s0) n = Some mc -> M.cdue mc = true ->
+  nth_error (I.thr si) t = Some th ->
+  I.cfg th = rcfg lk pk n idn reuse chk idue ->
+  I.tpc th = I.after_pre (I.cfg th) -> I.cur th = I.OpRenew -> I.canc th = false ->
+  I.lks (I.sh si) lk = None ->
+  I.sto (I.sh si) (I.SK n I.KKey) = Some (I.VKey kk) ->
+  I.sto (I.sh si) (I.SK n I.KCrt) = Some (I.VCrt ic) ->
+  I.sto (I.sh si) (I.SK n I.KMeta) = Some vm ->
+  cert_rel mc ic -> M.next s0 = I.ncid (I.sh si) ->
+  let new := M.Cert (M.next s0) n [] idue true in
+  let s1 := M.step od idue s0 (M.Manage n true) in
+  let sm := M.run od idue s0 (M.Manage n true :: mh_renew n 0 true m) in
+  let es := ev_renew t lk n idn chk true m in
+  (* the asynchronous call itself: caches the stored certificate (as the synchronous one), enqueues *)
+  (M.jobs s1 = M.jobs s0 ++ [M.Job n M.JRenew (Some mc) M.Queued] /\ M.store s1 = M.store s0 /\
+   M.cache s1 = M.cache_add mc (M.cache s0) /\ M.issued s1 = M.issued s0 /\ M.failed s1 = M.failed s0 /\ M.lasterr s1 = false) /\
+  exists si',
+    I.run si (labels_of t (lbl_renew chk true m)) = Some (si', es) /\
+    (M.issued sm = repeat n (count_iss idn 0 es) ++ M.issued s0 /\
+     M.failed sm = repeat n (count_iss idn 2 es) ++ M.failed s0 /\
+     count_iss idn 0 es = 1 /\ count_iss idn 2 es = m) /\
+    (bundle_rel (M.store sm) (I.sto (I.sh si')) n /\ M.stored (M.store sm) n = Some new /\
+     exists key, I.sto (I.sh si') (I.SK n I.KCrt) = Some (I.VCrt (I.Cert (I.ncid (I.sh si)) key idue))) /\
+    (M.lock_held (M.jobs sm) n = false /\ I.lks (I.sh si') lk = None) /\
+    (exists th', nth_error (I.thr si') t = Some th' /\ I.tpc th' = I.PDone I.ROk) /\
+    (* the job is at [Reload] with the cached OLD certificate as [oldCert]: its last step is
+       reloadManagedCertificate -- what the synchronous manage does at once *)
+    M.jobs sm = M.jobs s0 ++ [M.Job n M.JRenew (Some mc) M.Reload] /\ M.cache sm = M.cache_add mc (M.cache s0) /\
+    M.next sm = I.ncid (I.sh si').
+Proof. exact manage_async_renew_agree. Qed.
+
+
+(** Satisfiability of the hypotheses / non-trivial instances: an obtain job with two failed attempts next to another
+    locked job and another thread; the re-check with a foreign writer; an INCOMPLETE bundle (crt, meta without key) is
+    ABSENT for obtainCert (one issuer call, complete bundle afterwards -- as Maintain from [stored n = None]); an orphan key
+    is reused under ReusePrivateKeys; synchronous manage of a due certificate, issuer ok / failing; [WF] of those states;
+    asynchronous manage + job + reload = synchronous manage (one failed attempt in between). *)
+
+Example S_maintain_issuance_obtain_job_nontrivial :
+  exists si' es,
+    I.run exo_i (labels_of 1 (lbl_obtain true true false 2)) = Some (si', es) /\
+    length es = 26 /\ count_iss 4 0 es = 1 /\ count_iss 4 2 es = 2 /\
+    I.sto (I.sh si') (I.SK 4 I.KCrt) = Some (I.VCrt (I.Cert 10 7 false)) /\
+    bundle_rel (M.store exo_m) (I.sto (I.sh exo_i)) 4 /\
+    M.stored (M.store (M.run (fun _ => false) false exo_m (mh_obtain 4 0 false 2))) 4 = Some (M.Cert 10 4 [] false true) /\
+    M.failed (M.run (fun _ => false) false exo_m (mh_obtain 4 0 false 2)) = [4; 4] /\
+    M.split_job 4 0 (M.jobs exo_m) = Some ([M.Job 6 M.JRenew None M.Locked], M.Job 4 M.JObtain None M.Queued, []) /\
+    M.lock_held (M.jobs exo_m) 4 = false.
+Proof. exact obtain_job_agree_nontrivial. Qed.
+
+Example S_maintain_issuance_obtain_recheck_nontrivial :
+  exists s1 es1 s3 es3,
+    I.run exo_i (labels_of 1 (lbl_oA true)) = Some (s1, es1) /\ I.lks (I.sh s1) 8 = Some 1 /\
+    I.run (exo_i2 s1) (labels_of 1 lbl_orecheck) = Some (s3, es3) /\
+    map I.tpc (I.thr s3) = [I.PMLd I.Ph0 I.KKey; I.PDone I.ROk] /\ I.lks (I.sh s3) 8 = None /\
+    count_iss 4 0 (es1 ++ es3) = 0 /\
+    M.stored (M.store (M.run (fun _ => false) false exo_m [M.JobStep 4 0; M.ExtRenew 4 [5]; M.JobStep 4 0])) 4 =
+      Some (M.Cert 10 4 [5] false true) /\
+    M.stored (M.store exo_m) 4 = None.
+Proof. exact obtain_job_recheck_nontrivial. Qed.
+
+Example S_issuance_obtain_incomplete_bundle_is_absent :
+  exists si' es,
+    I.run (I.init_state [ocfg 8 4 4 false false false] inc_sto) (repeat (I.Label 0 I.FNone false) 14) = Some (si', es) /\
+    firstn 2 (map I.e_out es) = [0; 1] /\                     (* Exists crt: yes; Exists key: no *)
+    count_iss 4 0 es = 1 /\ map I.tpc (I.thr si') = [I.PDone I.ROk] /\
+    I.sto (I.sh si') (I.SK 4 I.KKey) = Some (I.VKey 0) /\
+    I.sto (I.sh si') (I.SK 4 I.KCrt) = Some (I.VCrt (I.Cert 0 0 false)) /\
+    I.sto (I.sh si') (I.SK 4 I.KMeta) = Some (I.VMeta 0) /\
+    (* Maintain from [stored 4 = None] *)
+    let sm := M.run (fun _ => false) false inc_m [M.JobStep 4 0; M.JobStep 4 0] in
+    M.issued sm = [4] /\ M.stored (M.store sm) 4 = Some (M.Cert 0 4 [] false true) /\
+    bundle_rel (M.store sm) (I.sto (I.sh si')) 4.
+Proof. exact obtain_incomplete_bundle_is_absent. Qed.
+
+Example S_issuance_obtain_reuses_orphan_key :
+  exists si' es,
+    I.run (I.init_state [ocfg 8 4 4 true false false] (I.sto_of_list [(I.SK 4 I.KKey, I.VKey 77)]))
+          (repeat (I.Label 0 I.FNone false) 13) = Some (si', es) /\
+    count_iss 4 0 es = 1 /\ map I.tpc (I.thr si') = [I.PDone I.ROk] /\
+    I.sto (I.sh si') (I.SK 4 I.KKey) = Some (I.VKey 77) /\
+    I.sto (I.sh si') (I.SK 4 I.KCrt) = Some (I.VCrt (I.Cert 0 77 false)).
+Proof. exact obtain_reuses_orphan_key. Qed.
+
+Example S_maintain_issuance_manage_sync_nontrivial :
+  (exists si' es,
+     I.run exm_i (labels_of 1 (lbl_manage true true true true false)) = Some (si', es) /\
+     length es = 25 /\ count_iss 4 0 es = 1 /\ count_iss 4 2 es = 0 /\
+     map I.seen (I.thr si') = [None; Some (I.Cert 10 2 false)] /\ map I.tpc (I.thr si') = [I.after_pre (I.TCfg (I.PRenew true) 1 6 6 6 false true false false); I.PDone I.ROk] /\
+     M.cache (M.step (fun _ => false) false (exm_m []) (M.Manage 4 false)) = [M.Cert 3 6 [] false true; M.Cert 10 4 [] false true]) /\
+  (exists si' es,
+     I.run exm_i (labels_of 1 (lbl_manage true true true true true)) = Some (si', es) /\
+     count_iss 4 0 es = 0 /\ count_iss 4 2 es = 1 /\
+     map I.seen (I.thr si') = [None; Some (I.Cert 9 2 true)] /\ map I.tpc (I.thr si') = [I.after_pre (I.TCfg (I.PRenew true) 1 6 6 6 false true false false); I.PDone I.RErr] /\
+     M.cache (M.step (fun _ => false) false (exm_m [4]) (M.Manage 4 false)) = [M.Cert 3 6 [] false true; M.Cert 9 4 [] true true] /\
+     M.lasterr (M.step (fun _ => false) false (exm_m [4]) (M.Manage 4 false)) = true) /\
+  bundle_rel (M.store (exm_m [])) (I.sto (I.sh exm_i)) 4 /\
+  M.managed_for 4 (M.cache (exm_m [])) = false /\ M.lock_held (M.jobs (exm_m [])) 4 = false.
+Proof. exact manage_sync_agree_nontrivial. Qed.
+
+Example S_maintain_issuance_manage_sync_wf_nontrivial : forall fl, WF (fun _ => false) (exm_m fl).
+Proof. exact manage_sync_wf_nontrivial. Qed.
+
+Example S_maintain_issuance_manage_async_nontrivial :
+  no_job_for 4 (M.jobs (exm_m [])) = true /\
+  let sm := M.run (fun _ => false) false (exm_m []) (M.Manage 4 true :: mh_renew 4 0 true 1 ++ [M.JobStep 4 0]) in
+  M.cache sm = M.cache (M.step (fun _ => false) false (exm_m []) (M.Manage 4 false)) /\
+  M.store sm = M.store (M.step (fun _ => false) false (exm_m []) (M.Manage 4 false)) /\
+  M.failed sm = [4] /\ M.jobs sm = M.jobs (exm_m []).
+Proof. exact manage_async_nontrivial. Qed.
+
+Example S_issuance_incomplete_bundle_nontrivial :
+  incomplete (I.sto_of_list [(I.SK 4 I.KCrt, I.VCrt (I.Cert 3 2 true)); (I.SK 4 I.KMeta, I.VMeta 3)]) 4 /\
+  incomplete (I.sto_of_list [(I.SK 4 I.KKey, I.VKey 77)]) 4.
+Proof. exact incomplete_bundle_nontrivial. Qed.
+(** all theorems and examples of this module *)
+Definition S12_all := (S_maintain_issuance_obtain_job_agree, S_maintain_issuance_obtain_job_lock_span, S_maintain_issuance_obtain_job_recheck_agree, S_issuance_incomplete_bundle_is_absent, S_maintain_issuance_manage_sync_agree, S_maintain_issuance_manage_sync_seen_is_cached, S_maintain_manage_key_mismatch_refuted, S_maintain_issuance_manage_async_obtain_agree, S_maintain_issuance_manage_async_renew_agree, S_maintain_issuance_obtain_job_nontrivial, S_maintain_issuance_obtain_recheck_nontrivial, S_issuance_obtain_incomplete_bundle_is_absent, S_issuance_obtain_reuses_orphan_key, S_maintain_issuance_manage_sync_nontrivial, S_maintain_issuance_manage_sync_wf_nontrivial, S_maintain_issuance_manage_async_nontrivial, S_issuance_incomplete_bundle_nontrivial).
+Print Assumptions S12_all.
+End S12.
